@@ -110,7 +110,7 @@ rule has a single priority (`Tmpl.uniform`: explicit priority, or all alternativ
 and every matching alternative is filed where the node looks (`compat`: holds for all patterns but bare `key()`/`id()`
 calls on non-element nodes). -/
 theorem find_quiet_sheet_spec (am : AltMatch) (k : NodeKind) (lname : String) (mode : Nat) (ts : List Tmpl)
-    (huni : ∀ t ∈ ts, t.uniform)
+    (huni : Generated.C10.perAlternativeMatch = false → ∀ t ∈ ts, t.uniform)
     (hsound : ∀ t ∈ ts, ∀ i a, t.alts[i]? = some a → am t i = true → compat (targetData a) k lname = true) :
     findInTables am k lname mode true ts = bestInSheet am mode ts :=
   quiet_sheet_spec am k lname mode ts huni hsound
@@ -123,21 +123,37 @@ alternatives with different default priorities), `hsound` matching alternatives 
 (`key_pattern_counterexample`).  Pattern matching itself (`am`) is abstract. -/
 theorem find_quiet_spec_partial (am : AltMatch) (k : NodeKind) (lname : String) (mode : Nat) (s : Src)
     (hnw : s.noWrapper = true)
-    (huni : ∀ ts ∈ s.byPrecedence, ∀ t ∈ ts, t.uniform)
+    (huni : Generated.C10.perAlternativeMatch = false → ∀ ts ∈ s.byPrecedence, ∀ t ∈ ts, t.uniform)
     (hsound : ∀ ts ∈ s.byPrecedence, ∀ t ∈ ts, ∀ i a, t.alts[i]? = some a → am t i = true →
       compat (targetData a) k lname = true) :
     implFind am k lname mode true s = specWinner am mode s := by
   rw [imports_order am k lname mode true s hnw, specWinner, specWinnerIn_eq_firstSome]
-  exact firstSome_congr fun ts hts => quiet_sheet_spec am k lname mode ts (huni ts hts) (hsound ts hts)
+  exact firstSome_congr fun ts hts =>
+    quiet_sheet_spec am k lname mode ts (fun h => huni h ts hts) (hsound ts hts)
+
+/-- **find_quiet_spec — the full §5.5 statement**, for the code with per-alternative matching
+(proposed/C10-union-per-alternative.diff; `hper` is what the translator reads off the source): for every import tree of
+any depth, every rule set (any unions, any explicit or default priorities, any modes), every node and mode, the rule the
+quiet body instantiates is the §5.5 winner — highest import precedence, then highest priority (explicit, or the default
+of the alternative that matches), then last.  Remaining hypotheses: `hnw` (no simplified stylesheet in the tree) and
+`hsound` (a matching alternative is filed in a list the node consults — a statement about pattern semantics, true for
+every pattern once key()/id() targets are filed everywhere). -/
+theorem find_quiet_spec (hper : Generated.C10.perAlternativeMatch = true)
+    (am : AltMatch) (k : NodeKind) (lname : String) (mode : Nat) (s : Src)
+    (hnw : s.noWrapper = true)
+    (hsound : ∀ ts ∈ s.byPrecedence, ∀ t ∈ ts, ∀ i a, t.alts[i]? = some a → am t i = true →
+      compat (targetData a) k lname = true) :
+    implFind am k lname mode true s = specWinner am mode s :=
+  find_quiet_spec_partial am k lname mode s hnw (fun h => by rw [hper] at h; cases h) hsound
 
 /-- the hypotheses of `find_quiet_spec_partial` are satisfiable by a non-trivial tree: `a` in the importing module beats
 `*` there and everything in the imported module -/
 example :
-    exTree.noWrapper = true ∧ (∀ ts ∈ exTree.byPrecedence, ∀ t ∈ ts, t.uniform) ∧
+    exTree.noWrapper = true ∧ (∀ ts ∈ exTree.byPrecedence, ∀ t ∈ ts, t.uniform) ∧ tUnion.alts.length = 2 ∧
     (∀ ts ∈ exTree.byPrecedence, ∀ t ∈ ts, ∀ i a, t.alts[i]? = some a → (fun _ _ => true : AltMatch) t i = true →
       compat (targetData a) .element "a" = true) ∧
     (implFind (fun _ _ => true) .element "a" 0 true exTree).map (·.id) = some 3 := by
-  refine ⟨by decide, ?_, ?_, by decide⟩
+  refine ⟨by decide, ?_, by decide, ?_, by decide⟩
   · intro ts hts t ht _ a ha b hb
     rcases exTree_rules ts hts t ht with rfl | rfl <;>
       simp only [tStar, tA, List.mem_singleton] at ha hb <;> subst ha <;> subst hb <;> rfl
@@ -151,9 +167,10 @@ rules `*[1] | *` and `p:*`; the node is an element in p's namespace that is not 
 (−0.5) and `p:*` (−0.25) but not `*[1]`.  §5.5 selects `p:*`; the quiet body files the union under its 0.5 entry,
 tests the *whole* pattern there, and returns the union rule. -/
 theorem find_quiet_spec_counterexample :
-    let s := Src.mk false [tUnion, tNsWild] []
+    Generated.C10.perAlternativeMatch = true ∨
+    (let s := Src.mk false [tUnion, tNsWild] []
     let am : AltMatch := fun t i => (t.id == 1 && i == 1) || t.id == 2
-    (implFind am .element "x" 0 true s).map (·.id) = some 1 ∧ (specWinner am 0 s).map (·.id) = some 2 := by
+    (implFind am .element "x" 0 true s).map (·.id) = some 1 ∧ (specWinner am 0 s).map (·.id) = some 2) := by
   decide
 
 /-! ## the reporting body -/
@@ -178,21 +195,47 @@ theorem find_reporting_eq_quiet_partial (am : AltMatch) (k : NodeKind) (lname : 
   intro ts hts
   simp only [findInTables, Bool.false_eq_true, if_false, if_true]
   have hsorted := table_sorted ts k lname
-  have hinv := foldl_reportStep_inv am mode (locate (buildTables ts) k lname) [] {}
-    ⟨by intro pm h; simp at h, by intro _; exact ⟨rfl, rfl, rfl⟩, by intro f h; simp at h⟩
-    (by simpa using hsorted) (heff ts hts) (by simpa using hpat ts hts)
-  simp only [List.nil_append] at hinv
-  rw [findQuietList_eq_find]
-  unfold findReportList
-  cases hf : (locate (buildTables ts) k lname).find? (entryMatches am mode) with
-  | none =>
-    obtain ⟨hb, _, hc⟩ := hinv.none_case hf
-    simp [hb, hc]
-  | some f =>
-    obtain ⟨_, hcase⟩ := hinv.some_case f hf
-    rcases hcase with ⟨hc, hb⟩ | ⟨b, tl, hc, _⟩
-    · simp [hb, hc]
-    · simp [hc]
+  cases hper : Generated.C10.perAlternativeMatch with
+  | true => exact findReportList_eq_quiet_alt hper am mode _ hsorted
+  | false =>
+    have hinv := foldl_reportStep_inv am mode (locate (buildTables ts) k lname) [] {}
+      ⟨by intro pm h; simp at h, by intro _; exact ⟨rfl, rfl, rfl⟩, by intro f h; simp at h⟩
+      (by simpa using hsorted) (heff ts hts) (by simpa using hpat ts hts)
+    simp only [List.nil_append] at hinv
+    rw [findQuietList_eq_find, entryMatches_old hper]
+    unfold findReportList
+    rw [reportStep_old hper]
+    cases hf : (locate (buildTables ts) k lname).find? (entryMatchesW am mode) with
+    | none =>
+      obtain ⟨hb, _, hc⟩ := hinv.none_case hf
+      simp [hb, hc]
+    | some f =>
+      obtain ⟨_, hcase⟩ := hinv.some_case f hf
+      rcases hcase with ⟨hc, hb⟩ | ⟨b, tl, hc, _⟩
+      · simp [hb, hc]
+      · simp [hc]
+
+/-- **find_reporting_eq_quiet — conflict warnings never change the choice (full statement)**, for the code with
+per-alternative matching and filed priorities in the reporting body: for every import tree without simplified
+stylesheets, every rule set, node and mode, both bodies of `findTemplate` return the same rule. No hypothesis on the
+rules or on pattern matching. -/
+theorem find_reporting_eq_quiet (hper : Generated.C10.perAlternativeMatch = true)
+    (am : AltMatch) (k : NodeKind) (lname : String) (mode : Nat) (s : Src) (hnw : s.noWrapper = true) :
+    implFind am k lname mode false s = implFind am k lname mode true s := by
+  rw [imports_order am k lname mode false s hnw, imports_order am k lname mode true s hnw]
+  apply firstSome_congr
+  intro ts _
+  simp only [findInTables, Bool.false_eq_true, if_false, if_true]
+  exact findReportList_eq_quiet_alt hper am mode _ (table_sorted ts k lname)
+
+/-- **Corollary (full): with conflict warnings enabled the §5.5 winner is instantiated.** -/
+theorem find_reporting_spec (hper : Generated.C10.perAlternativeMatch = true)
+    (am : AltMatch) (k : NodeKind) (lname : String) (mode : Nat) (s : Src)
+    (hnw : s.noWrapper = true)
+    (hsound : ∀ ts ∈ s.byPrecedence, ∀ t ∈ ts, ∀ i a, t.alts[i]? = some a → am t i = true →
+      compat (targetData a) k lname = true) :
+    implFind am k lname mode false s = specWinner am mode s := by
+  rw [find_reporting_eq_quiet hper am k lname mode s hnw, find_quiet_spec hper am k lname mode s hnw hsound]
 
 /-- **find_reporting_eq_quiet with syntactic hypotheses.** The two bodies agree for every import tree without
 simplified stylesheets in which every rule is `stable` (explicit priority, or one default score shared by all
@@ -220,7 +263,7 @@ example : tStar.stable ∧ tA.stable ∧ ¬ tUnion.stable := by
 both partial theorems. -/
 theorem find_reporting_spec_partial (am : AltMatch) (k : NodeKind) (lname : String) (mode : Nat) (s : Src)
     (hnw : s.noWrapper = true)
-    (huni : ∀ ts ∈ s.byPrecedence, ∀ t ∈ ts, t.uniform)
+    (huni : Generated.C10.perAlternativeMatch = false → ∀ ts ∈ s.byPrecedence, ∀ t ∈ ts, t.uniform)
     (hsound : ∀ ts ∈ s.byPrecedence, ∀ t ∈ ts, ∀ i a, t.alts[i]? = some a → am t i = true →
       compat (targetData a) k lname = true)
     (heff : ∀ ts ∈ s.byPrecedence, ∀ m ∈ locate (buildTables ts) k lname, ∀ sc,
@@ -245,7 +288,8 @@ example :
 with `* | a` against `a` at priority −0.25 on an `a` element it is the reporting body that departs from §5.5: it
 scores the union by its *first* matching alternative (−0.5). -/
 theorem find_reporting_eq_quiet_counterexample_union :
-    (let s := Src.mk false [tUnion, tNsWild] []
+    Generated.C10.perAlternativeMatch = true ∨
+    ((let s := Src.mk false [tUnion, tNsWild] []
      let am : AltMatch := fun t i => (t.id == 1 && i == 1) || t.id == 2
      (implFind am .element "x" 0 true s).map (·.id) = some 1 ∧ (implFind am .element "x" 0 false s).map (·.id) = some 2) ∧
     (let tU : Tmpl := { id := 1, mode := 0, prio := none, pat := 1,
@@ -253,18 +297,19 @@ theorem find_reporting_eq_quiet_counterexample_union :
      let s := Src.mk false [tU, { tA with prio := some (-25) }] []
      let am : AltMatch := fun _ _ => true
      (implFind am .element "a" 0 false s).map (·.id) = some 3 ∧ (implFind am .element "a" 0 true s).map (·.id) = some 1 ∧
-       (specWinner am 0 s).map (·.id) = some 1) := by
+       (specWinner am 0 s).map (·.id) = some 1)) := by
   decide
 
 /-- **Counterexample (boolean predicate; known finding C10-predicate-priority-reporting).** `a[@x]` (default priority
 0.5) against `a` at priority 0.25 on an `a` element with an `x` attribute: §5.5 and the quiet body select `a[@x]`; the
 reporting body takes the priority from the match score, which a boolean predicate leaves at the node test's 0. -/
 theorem find_reporting_eq_quiet_counterexample_predicate :
-    let tP : Tmpl := { id := 1, mode := 0, prio := none, pat := 1, alts := [⟨.name false "a", .boolPred⟩] }
+    Generated.C10.perAlternativeMatch = true ∨
+    (let tP : Tmpl := { id := 1, mode := 0, prio := none, pat := 1, alts := [⟨.name false "a", .boolPred⟩] }
     let s := Src.mk false [tP, { tA with prio := some 25 }] []
     let am : AltMatch := fun _ _ => true
     (implFind am .element "a" 0 true s).map (·.id) = some 1 ∧ (specWinner am 0 s).map (·.id) = some 1 ∧
-      (implFind am .element "a" 0 false s).map (·.id) = some 3 := by
+      (implFind am .element "a" 0 false s).map (·.id) = some 3) := by
   decide
 
 /-- **Counterexample (equal pattern strings; known finding C10-duplicate-pattern-string).** Two rules with the same
@@ -330,13 +375,29 @@ example :
 node type (§5.8, `findTemplateToTransformChild`): element/root — process the children in the same mode; text/attribute —
 copy the string value; comment, processing instruction, namespace declaration — nothing. -/
 theorem builtin_rule_when_none (doc : Array NodeRec) (findTop : Nat → Nat → Option Tmpl)
-    (findImp : Tmpl → Nat → Nat → Option Tmpl) (f n mode : Nat) (h : findTop n mode = none) :
-    processWith doc findTop findImp (f + 1) n mode none =
+    (findImp : Tmpl → Nat → Nat → Option Tmpl) (named : Nat → Option Tmpl) (ck : Bool) (f n mode : Nat)
+    (h : findTop n mode = none) :
+    processWith doc findTop findImp named ck (f + 1) n mode none =
       match (doc.getD n default).kind with
-      | .element | .root => (doc.getD n default).kids.flatMap fun c => processWith doc findTop findImp f c mode none
+      | .element | .root =>
+        (doc.getD n default).kids.flatMap fun c => processWith doc findTop findImp named ck f c mode none
       | .text | .attribute => [.text (doc.getD n default).text]
       | _ => [] := by
   simp only [processWith, h]
   cases (doc.getD n default).kind <;> rfl
+
+/-- **applyImports_call_template_scope.** `xsl:call-template` does not change the current template rule (§5.6): when
+rule `t` calls the named template `nt` and `nt` does `xsl:apply-imports`, the search is the one `applyImports_scope`
+describes for **`t`'s** module when `callKeeps = true` (specification; implementation with
+proposed/C10-call-template-current-rule.diff), and for `nt`'s module when `callKeeps = false` (unchanged
+`ElemTemplate::startElement`, known finding C10-call-template-current-rule). -/
+theorem applyImports_call_template_scope (doc : Array NodeRec) (findTop : Nat → Nat → Option Tmpl)
+    (findImp : Tmpl → Nat → Nat → Option Tmpl) (named : Nat → Option Tmpl) (ck : Bool) (f n mode : Nat)
+    (t nt : Tmpl) (hfound : findTop n mode = some t) (hcall : t.call ≠ 0) (hnamed : named t.call = some nt)
+    (hai : nt.applyImports = true) (hnoai : t.applyImports = false) :
+    processWith doc findTop findImp named ck (f + 1) n mode none =
+      .rule t.id :: .rule nt.id ::
+        processWith doc findTop findImp named ck f n mode (some (if ck then t else nt)) := by
+  simp [processWith, hfound, hcall, hnamed, hai, hnoai]
 
 end XalanModel.Props.C10
